@@ -6,7 +6,7 @@ done = set()
 idle = 0
 while idle < 240 and not os.path.exists("/tmp/seed/STOP"):
     new = False
-    for d in sorted(glob.glob("/tmp/seed/C*.out/[mnpqrstu]*")):
+    for d in sorted(glob.glob("/tmp/seed/C*.out/[mnpqrstuv]*")):
         if d in done or not all(os.path.exists(os.path.join(d, f)) for f in ("patch.diff", "demo.rs", "meta.json")):
             continue
         # wait until the agent has stopped touching the directory
